@@ -453,6 +453,7 @@ class FSpec:
         self.ws = [{'buf': False, 'lo': 0, 'hi': cap, 'content': b''}]
         self.mem = {}; self.off = False
         self.async_over = False      # an async_write_from_at went to a buffered writer that already held bytes
+        self.sync_over = False       # same for the synchronous write_from / write_from_at
     def place(self, w, data):
         base = FBASE + MARGIN + w['lo'] + len(w['content'])
         for i, v in enumerate(data): self.mem[base + i] = v
@@ -461,8 +462,9 @@ class FSpec:
         room = w['hi'] - w['lo'] - len(w['content'])
         if op[0] == 'e' and not op[2]:           # async_write_all(&[]): the loop body never runs
             return {'res': ('ok', 0, b''), 'a': room, 'c': len(w['content']), 'a2': 0, 'c2': 0, 'pk': []}
-        if op[0] == 'g' and w['buf'] and w['content'] and op[3] not in 'eb' and min(op[2], len(op[4])) > 0 and op[2] <= room:
-            self.async_over = True
+        if op[0] in 'gf' and w['buf'] and w['content'] and op[3] not in 'eb' and min(op[2], len(op[4])) > 0 and op[2] <= room:
+            if op[0] == 'g': self.async_over = True
+            else: self.sync_over = True
         if op[0] in 'bd': op = ('v', op[1], [x for x in op[2]] or [b''])
         op = sync_of(op); k = op[0]
         if k in 'wvf' and not w['buf'] and w['content']:
@@ -594,7 +596,7 @@ def eval_fcase(c, out):
             lo, hi = FBASE + MARGIN, FBASE + MARGIN + c['cap']
             probs.append({'what': 'fusedev reply buffer differs from the bytes written (%d addresses, %d outside the buffer)' % (len(bad), sum(1 for a in bad if not lo <= a < hi)),
                           'first': bad[:5], 'sig': {'transport': 'fusedev', 'op': 'memory'}})
-    if probs and spec.async_over:
+    if probs and spec.async_over and not spec.sync_over:
         # the deviation follows an async_write_from_at into a buffered writer that already held bytes: name it
         probs = [{'what': 'fusedev async_write_from_at on a buffered writer that already holds bytes puts the file data at the start of the buffer: '
                           'earlier bytes are overwritten and stale bytes are committed (%s)' % probs[0]['what'][:160],
@@ -883,6 +885,7 @@ def gen_fcase_over(rng):
     """async_write_from_at into a split-off (buffered) writer that already holds bytes, then commit"""
     seed = rng.randrange(256); cap = rng.choice([32, 100, 4097]); h = rng.choice([0, 8, 16])
     pre = rdata(rng, rng.choice([1, 3, 16])); n = rng.choice([1, 4, 10])
-    ops = [('p', 0, h), (rng.choice('wa'), 1, pre), ('g', 1, n + rng.choice([0, 2]), rng.choice('fl'), rdata(rng, n)),
+    k = rng.choice('ggf')        # the async method, or its synchronous twins write_from / write_from_at
+    ops = [('p', 0, h), (rng.choice('wa'), 1, pre), (k, 1, n + rng.choice([0, 2]), rng.choice('fl') if k == 'g' else rng.choice('fal'), rdata(rng, n)),
            (rng.choice('wa'), 0, rdata(rng, h)), (rng.choice('ch'), 0, 1)]
     return {'seed': seed, 'cap': cap, 'mode': 'writer', 'ops': ops}
